@@ -728,7 +728,15 @@ pub fn build_raw(lang: &Lang, events: &[Ev], crlf: bool) -> Built {
                             let mut txt = render_start_tag(tag);
                             if txt.contains('\n') {
                                 had_nl = true;
-                                txt = txt.replace('\n', &cont);
+                                // two line breaks in a row: a completely EMPTY line inside the tag (no continuation prefix on
+                                // it) — where the comment form can hold one (not a Markdown definition's title, not inside a
+                                // Markdown container, whose prefix every line needs)
+                                if md_ref || in_container {
+                                    while txt.contains("\n\n") {
+                                        txt = txt.replace("\n\n", "\n");
+                                    }
+                                }
+                                txt = txt.replace("\n\n", "\u{1}").replace('\n', &cont).replace('\u{1}', &format!("{nl}{cont}"));
                             }
                             tags.push(TagRec { start: true, tag: Some(tag.clone()), off: out.len(), len: txt.len(), comment: idx });
                             out.push_str(&txt);
@@ -904,7 +912,7 @@ pub fn simple_tag_strategy() -> BoxedStrategy<StartTag> {
         4 => proptest::string::string_regex("[a-z0-9 ._:/é-]{0,10}").unwrap(),
         1 => prop_oneof![Just("a--b -- c"), Just("http://x//y"), Just("#c # d"), Just("x;y ; z"), Just("-- DROP"), Just("// see"), Just("%% rem")].prop_map(String::from),
     ];
-    let attr = (name, value, 0u8..4, prop_oneof![Just(" "), Just("  "), Just("\t"), Just("\n")]).prop_map(|(n, v, kind, ws)| Attr {
+    let attr = (name, value, 0u8..4, prop_oneof![3 => Just(" "), 3 => Just("  "), 3 => Just("\t"), 3 => Just("\n"), 1 => Just("\n\n")]).prop_map(|(n, v, kind, ws)| Attr {
         name: n.to_string(),
         val: match kind {
             0 => Val::None,
@@ -950,8 +958,8 @@ pub fn wild_tag_strategy() -> BoxedStrategy<StartTag> {
         3 => proptest::string::string_regex("[a-zA-Z0-9éж名_-]{1,8}").unwrap(),
         1 => prop_oneof![Just("name".to_string()), Just("a".to_string()), Just("keep-sorted".to_string())],
     ];
-    let ws1 = prop_oneof![5 => Just(" ".to_string()), 1 => Just("  ".to_string()), 1 => Just("\t".to_string()), 1 => Just("\n".to_string()), 1 => Just(" \n  ".to_string())];
-    let ws0 = prop_oneof![6 => Just(String::new()), 1 => Just(" ".to_string()), 1 => Just("\t ".to_string()), 1 => Just("\n".to_string())];
+    let ws1 = prop_oneof![5 => Just(" ".to_string()), 1 => Just("  ".to_string()), 1 => Just("\t".to_string()), 1 => Just("\n".to_string()), 1 => Just(" \n  ".to_string()), 1 => Just("\n\n".to_string())];
+    let ws0 = prop_oneof![6 => Just(String::new()), 1 => Just(" ".to_string()), 1 => Just("\t ".to_string()), 1 => Just("\n".to_string()), 1 => Just("\n\n".to_string())];
     let quoted = proptest::string::string_regex("[ -~éж名😀]{0,14}").unwrap();
     let special = prop_oneof![Just("a>b"), Just("<x>"), Just("k=v"), Just("it's"), Just("say \"hi\""), Just("</block>"), Just("<block name=\"inner\">"), Just(" > "), Just("")];
     let attr = (name, 0u8..5, quoted, special, proptest::string::string_regex("[a-zA-Z0-9éж_-]{1,6}").unwrap(), ws1, ws0.clone(), ws0.clone()).prop_map(|(name, kind, q, sp, uq, ws_before, ws_eq_l, ws_eq_r)| {
